@@ -46,7 +46,17 @@ const (
 	kString
 	kEnum
 	kInt
+	kT        // a value of the type parameter T (cache set)
+	kDval     // a Go `any` held by the memo: dynamic type + payload (cache set)
+	kCfg      // *Config
+	kCacheKey // cacheKey
 )
+
+// in the cache set `any` is a memo value (kDval), elsewhere a decoded yaml value (kAny)
+var anyKind = kAny
+
+// name of the type parameter of the generic function being translated ("" if none)
+var typeParam string
 
 func (k kind) coq() string {
 	switch k {
@@ -68,6 +78,12 @@ func (k kind) coq() string {
 		return "string"
 	case kEnum, kInt:
 		return "nat"
+	case kT:
+		return "val"
+	case kDval:
+		return "dval ty"
+	case kCacheKey:
+		return "(string * ty)"
 	}
 	return "UNSUPPORTED_type"
 }
@@ -86,6 +102,10 @@ func (k kind) zero() string {
 		return "EmptyString"
 	case kEnum, kInt:
 		return "0"
+	case kT:
+		return "zeroT"
+	case kDval:
+		return "(nil_dval ty)"
 	}
 	return "UNSUPPORTED_zero"
 }
@@ -93,9 +113,12 @@ func (k kind) zero() string {
 func typeKind(t ast.Expr) kind {
 	switch x := t.(type) {
 	case *ast.Ident:
+		if typeParam != "" && x.Name == typeParam {
+			return kT
+		}
 		switch x.Name {
 		case "any":
-			return kAny
+			return anyKind
 		case "error":
 			return kErr
 		case "bool":
@@ -126,6 +149,9 @@ func typeKind(t ast.Expr) kind {
 		if id, ok := x.X.(*ast.Ident); ok && id.Name == "dimension" {
 			return kDimPtr
 		}
+		if id, ok := x.X.(*ast.Ident); ok && id.Name == "Config" {
+			return kCfg
+		}
 	case *ast.IndexExpr: // set.Set[string]
 		if sel, ok := x.X.(*ast.SelectorExpr); ok && sel.Sel.Name == "Set" && typeKind(x.Index) == kString {
 			return kKeys
@@ -152,6 +178,7 @@ type alias struct {
 }
 
 type fn struct {
+	stateful bool // the function threads the memo (`cache`) and may panic: results are option (cache * ...)
 	usesEnv  bool
 	name     string
 	env      map[string]kind
@@ -240,11 +267,27 @@ func (f *fn) call(c *ast.CallExpr) (string, []kind) {
 		}
 		return f.bad("call of " + id.Name), []kind{kUnknown}
 	}
+	if ix, ok := c.Fun.(*ast.IndexExpr); ok { // explicit instantiation f[T](...)
+		if typeParam != "" && ident(ix.Index) == typeParam {
+			switch strings.Join(chain(ix.X), ".") {
+			case "extractAndConvert": // extractAndConvert[T](cfg.data, key), boxed into `any` by the assignment
+				if len(c.Args) == 2 && strings.Join(chain(c.Args[0]), ".") == "cfg.data" {
+					a, _ := f.expr(c.Args[1], kString)
+					return "(extract_and_convert is_iface dyn_of_any conv tyT " + a + ")", []kind{kDval, kErr}
+				}
+			case "reflect.TypeFor":
+				if len(c.Args) == 0 {
+					return "tyT", []kind{kUnknown}
+				}
+			}
+		}
+		return f.bad("instantiated call"), []kind{kUnknown}
+	}
 	ch := chain(c.Fun)
 	if ch == nil {
 		return f.bad("call"), []kind{kUnknown}
 	}
-	if isErrFactory(ch[0]) { // ErrFailedParsing.Msg(...): some non-nil error
+	if isErrFactory(ch[0]) || ch[0] == "gerror" { // ErrFailedParsing.Msg(...): some non-nil error
 		return "true", []kind{kErr}
 	}
 	switch strings.Join(ch, ".") {
@@ -318,6 +361,26 @@ func (f *fn) expr(e ast.Expr, want kind) (string, kind) {
 			}
 		}
 		return f.bad("literal"), kUnknown
+	case *ast.CompositeLit:
+		if id := ident(x.Type); id == "cacheKey" && len(x.Elts) == 2 {
+			var key, typ string
+			for _, e := range x.Elts {
+				kv, ok := e.(*ast.KeyValueExpr)
+				if !ok {
+					return f.bad("composite literal element"), kUnknown
+				}
+				switch ident(kv.Key) {
+				case "key":
+					key, _ = f.expr(kv.Value, kString)
+				case "typ":
+					typ, _ = f.expr(kv.Value, kUnknown)
+				}
+			}
+			if key != "" && typ != "" {
+				return "(" + key + ", " + typ + ")", kCacheKey
+			}
+		}
+		return f.bad("composite literal"), kUnknown
 	case *ast.IndexExpr:
 		a, k := f.expr(x.X, kUnknown)
 		i, ik := f.expr(x.Index, kInt)
@@ -340,6 +403,12 @@ func (f *fn) expr(e ast.Expr, want kind) (string, kind) {
 					return a, kBool
 				}
 				return "(negb " + a + ")", kBool
+			}
+			if k == kDval {
+				if x.Op == token.EQL {
+					return "(dval_is_nil " + a + ")", kBool
+				}
+				return "(negb (dval_is_nil " + a + "))", kBool
 			}
 			return f.bad("nil comparison"), kBool
 		}
@@ -531,6 +600,22 @@ func (f *fn) stmts(list []ast.Stmt, k, loopK, ind string) string {
 			var ks []kind
 			switch r := s.Rhs[0].(type) {
 			case *ast.CallExpr:
+				if strings.Join(chain(r.Fun), ".") == "cfg.cached.Compute" && f.stateful && len(r.Args) == 2 {
+					// v, ok := cfg.cached.Compute(k, func(old any, loaded bool) (new any, del bool) {...})
+					key, _ := f.expr(r.Args[0], kCacheKey)
+					lit, isLit := r.Args[1].(*ast.FuncLit)
+					if !isLit {
+						return f.bad("Compute without a function literal")
+					}
+					fun, captured := f.funcLit(lit, ind+"    ")
+					for i, l := range s.Lhs {
+						if n := ident(l); n != "_" && n != "" {
+							f.env[n] = []kind{kDval, kBool}[i]
+						}
+					}
+					return let("'(cache, "+lhsName(s.Lhs[0])+", "+lhsName(s.Lhs[1])+", "+tuple(captured)+")",
+						"xsync_compute ty_eqb cache "+key+" "+fun)
+				}
 				term, ks = f.call(r)
 			case *ast.IndexExpr: // v, ok := m[k]
 				m, mk := f.expr(r.X, kUnknown)
@@ -605,6 +690,18 @@ func (f *fn) stmts(list []ast.Stmt, k, loopK, ind string) string {
 		}
 		return f.bad("branch statement")
 	case *ast.ReturnStmt:
+		if len(s.Results) == 2 && f.stateful {
+			if ta, ok := s.Results[0].(*ast.TypeAssertExpr); ok && typeParam != "" && ident(ta.Type) == typeParam {
+				// return v.(T), e : the assertion may panic
+				v, vk := f.expr(ta.X, kUnknown)
+				e, _ := f.expr(s.Results[1], kErr)
+				if vk != kDval {
+					return f.bad("type assertion on a non-interface value")
+				}
+				return "match type_assert ty_eqb is_iface tyT " + v + " with\n" + ind + "| Some x => " + f.ret("(x, "+e+")") +
+					"\n" + ind + "| None => None\n" + ind + "end"
+			}
+		}
 		if len(s.Results) == 1 && len(f.results) > 1 {
 			if c, ok := s.Results[0].(*ast.CallExpr); ok { // return f(...)
 				t, ks := f.call(c)
@@ -737,6 +834,59 @@ func (f *fn) stmts(list []ast.Stmt, k, loopK, ind string) string {
 	return f.bad(fmt.Sprintf("stmt %T", list[0]))
 }
 
+// funcLit renders a function literal; variables of the enclosing function it assigns are
+// returned next to its results: fun params => ((results), captured).
+func (f *fn) funcLit(lit *ast.FuncLit, ind string) (string, []string) {
+	g := &fn{name: "", env: map[string]kind{}, aliases: map[string]alias{}}
+	for k, v := range f.env {
+		g.env[k] = v
+	}
+	local := map[string]bool{}
+	params := ""
+	for _, p := range lit.Type.Params.List {
+		kd := typeKind(p.Type)
+		for _, n := range p.Names {
+			g.env[n.Name] = kd
+			local[n.Name] = true
+			params += " (v_" + n.Name + " : " + kd.coq() + ")"
+		}
+	}
+	pre := ""
+	if lit.Type.Results != nil {
+		for _, r := range lit.Type.Results.List {
+			kd := typeKind(r.Type)
+			n := len(r.Names)
+			if n == 0 {
+				n = 1
+			}
+			for i := 0; i < n; i++ {
+				g.results = append(g.results, kd)
+			}
+			for _, nm := range r.Names {
+				g.env[nm.Name] = kd
+				local[nm.Name] = true
+				pre += "let v_" + nm.Name + " := " + kd.zero() + " in\n" + ind
+			}
+		}
+	}
+	var captured []string
+	for _, v := range g.assigned(lit.Body.List) {
+		if !local[v] {
+			captured = append(captured, v)
+		}
+	}
+	if len(captured) == 0 {
+		return f.bad("function literal without captured assignment"), nil
+	}
+	g.retWrap = func(v string) string { return "(" + v + ", " + tuple(captured) + ")" }
+	body := g.stmts(lit.Body.List, "MISSING_RETURN", "", ind)
+	if strings.Contains(body, "MISSING_RETURN") {
+		body = strings.ReplaceAll(body, "MISSING_RETURN", g.bad("missing return in function literal"))
+	}
+	f.problems = append(f.problems, g.problems...)
+	return "(fun" + params + " =>\n" + ind + pre + body + ")", captured
+}
+
 type target struct {
 	file string
 	name string
@@ -754,6 +904,9 @@ var sets = map[string][]target{
 	"templates": {
 		{"yaml_templates.go", "MatchAndResolve", false},
 	},
+	"cache": {
+		{"config.go", "getFromCache", false},
+	},
 }
 
 var wanted []target
@@ -761,9 +914,12 @@ var wanted []target
 func main() {
 	src := flag.String("src", "", "directory of the gconfig module")
 	out := flag.String("out", "GConfGen.v", "output file")
-	set := flag.String("set", "resolve", "which functions: resolve (builder.go, config.go) | templates (yaml_templates.go)")
+	set := flag.String("set", "resolve", "which functions: resolve (builder.go, config.go) | templates (yaml_templates.go) | cache (config.go)")
 	flag.Parse()
 	wanted = sets[*set]
+	if *set == "cache" {
+		anyKind = kDval
+	}
 	if wanted == nil {
 		fmt.Fprintln(os.Stderr, "unknown -set")
 		os.Exit(2)
@@ -789,6 +945,10 @@ func main() {
 			continue
 		}
 		s := &sig{rec: t.rec}
+		typeParam = ""
+		if fd.Type.TypeParams != nil && len(fd.Type.TypeParams.List) == 1 && len(fd.Type.TypeParams.List[0].Names) == 1 {
+			typeParam = fd.Type.TypeParams.List[0].Names[0].Name
+		}
 		for _, p := range fd.Type.Params.List {
 			for range p.Names {
 				s.params = append(s.params, typeKind(p.Type))
@@ -813,6 +973,13 @@ func main() {
 	if *set == "templates" {
 		b.WriteString("From GT Require Import TmplModel TmplGenPrims.\n")
 	}
+	if *set == "cache" {
+		anyKind = kDval
+		b.WriteString("From GT Require Import GConfCacheModel GConfCacheGenPrims.\n\nSection CacheGen.\n" +
+			"Variable ty : Type.\nVariable ty_eqb : ty -> ty -> bool.\nVariable is_iface : ty -> bool.\n" +
+			"Variable dyn_of_any : val -> ty.\nVariable conv : string -> ty -> res val.\n" +
+			"Variable tyT : ty.  (* the type argument T *)\nVariable zeroT : val.  (* its zero value *)\n")
+	}
 	b.WriteString("\n")
 	var problems []string
 	for _, t := range wanted {
@@ -822,7 +989,12 @@ func main() {
 			problems = append(problems, t.name+": not found")
 			continue
 		}
+		typeParam = ""
+		if fd.Type.TypeParams != nil && len(fd.Type.TypeParams.List) == 1 && len(fd.Type.TypeParams.List[0].Names) == 1 {
+			typeParam = fd.Type.TypeParams.List[0].Names[0].Name
+		}
 		f := &fn{name: t.name, env: map[string]kind{}, aliases: map[string]alias{}, results: sigs[t.name].results}
+		f.stateful = *set == "cache"
 		head := "Definition gen_" + t.name
 		resT := make([]string, len(f.results))
 		for i, r := range f.results {
@@ -845,8 +1017,15 @@ func main() {
 			kd := typeKind(p.Type)
 			for _, n := range p.Names {
 				f.env[n.Name] = kd
+				if kd == kCfg { // the Config is represented by its memo
+					head += " (cache : gcache ty)"
+					continue
+				}
 				head += " (v_" + n.Name + " : " + kd.coq() + ")"
 			}
+		}
+		if f.stateful {
+			f.retWrap = func(v string) string { return "Some (cache, " + v + ")" }
 		}
 		// named results are variables initialised to their zero values
 		pre := ""
@@ -867,7 +1046,11 @@ func main() {
 		if f.usesEnv {
 			head = strings.Replace(head, "Definition gen_"+t.name, "Definition gen_"+t.name+" (env : list (string * string))", 1)
 		}
-		head += " : " + strings.Join(resT, " * ")
+		if f.stateful {
+			head += " : option (gcache ty * (" + strings.Join(resT, " * ") + "))"
+		} else {
+			head += " : " + strings.Join(resT, " * ")
+		}
 		if strings.Contains(body, "MISSING_RETURN") {
 			body = strings.ReplaceAll(body, "MISSING_RETURN", f.bad("missing return"))
 		}
@@ -875,6 +1058,9 @@ func main() {
 		for _, p := range f.problems {
 			problems = append(problems, t.name+": "+p)
 		}
+	}
+	if *set == "cache" {
+		b.WriteString("End CacheGen.\n")
 	}
 	names := make([]string, len(wanted))
 	for i, t := range wanted {
